@@ -136,6 +136,8 @@ use crate::vspec::*;''')
     priv = rc.item(r'^pub trait _UnwindSectionPrivate<R: Reader>', label='_UnwindSectionPrivate')
     priv.drop(['has_zero_terminator', 'is_cie', 'cie_offset_encoding', 'resolve_cie_offset', 'has_address_and_segment_sizes'])
     priv.clean(offset=False)
+    priv.insert_members('    spec fn section_rv(&self) -> RView;')
+    priv.splice('section', ret='res', ensures=['res.rv() == self.section_rv()'])
     sk.add('read::cfi', priv)
     us = rc.item(r'^pub trait UnwindSection<R: Reader>', label='UnwindSection')
     us.keep_only([])
@@ -163,7 +165,7 @@ use crate::vspec::*;''')
     ue.custom('R-CLONE', 'section.section().clone()', 'reader_clone(section.section())')
     ue.clean(offset=False)
     ue.splice('get', ret='res', ensures=[
-        'res matches Ok(e) ==> window(section.section().rv(), e.0.rv(), self.offset.as_nat(), self.length.as_nat())'])
+        'res matches Ok(e) ==> window(section.section_rv(), e.0.rv(), self.offset.as_nat(), self.length.as_nat())'])
     ue.own(['C05'])
     sk.add('read::cfi', ue)
 
